@@ -63,14 +63,16 @@ def run(chk):
                        "(RangeNonNegChecked = FALSE in the cfgs), not as an alteration",
                        "full-proof alterations are a seeded sample per run (all leaf kinds and OR branches every run, all leaf classes in the thorough tier)"]
     ca, cb = "KeyProof.a.%s.cfg" % T, "KeyProof.b.%s.cfg" % T
-    with ThreadPoolExecutor(max_workers=2) as ex:
+    vplib.scratch()
+    with ThreadPoolExecutor(max_workers=3) as ex:
         fb = ex.submit(vplib.tlc_mc, "KeyProof", cb, timeout=3000, workers=4 if not thorough else 8, name="kpb")
+        fg = ex.submit(generate, chk, T)          # single-threaded by design (printed lines must not interleave)
         ra = vplib.tlc_mc("KeyProof", ca, timeout=3000, name="kpa")
         rb = fb.result()
+        path, counts = fg.result()
     chk.add_tlc(ra, "KeyProof", ca, "SFClaim PPPClaim DPPClaim EqClaim ASPPGroupClaim ASPPOrderClaim ASPPModulusClaim")
     chk.add_tlc(rb, "KeyProof", cb, "AcceptImpliesUnaltered MalformedRejected HonestAccepted EveryLeafBound")
     probes(chk, "KeyProof", PROBES)
-    path, counts = generate(chk, T)
     chk.extra["generated"] = counts
     seed = str(chk.seed)
     res = vplib.vh("kp", ["gennaro", "--in", path, "--tier", T, "--seed", seed], timeout=3000)
